@@ -135,7 +135,8 @@ def gen_case(rng):
         cls, A, valid = gen.adjacency_class(rng, k)
         while valid is not True or np.iscomplexobj(A) and cls == "complex" and False:
             cls, A, valid = gen.adjacency_class(rng, k)
-        return {"op": "GraphEmbed", "p": [enc(A)], "kw": {"mean_photon_per_mode": float(rng.choice([0.2, 0.5, 1.0]))},
+        return {"op": "GraphEmbed", "p": [enc(A)], "kw": {"mean_photon_per_mode": float(rng.choice([0.2, 0.5, 1.0])),
+                                                          "make_traceless": bool(rng.random() < 0.4)},
                 "modes": list(range(k)), "n": k, "dag": False, "target": str(rng.choice(TARGETS["GraphEmbed"])), "hbar": hbar, "cls": cls}
     if fam == "bipartite":
         k = int(rng.integers(1, 4))
